@@ -131,4 +131,14 @@ example : insideBounds (P.setCo ⟨10, 5⟩ true 12) ⟨7, 2, 13, 8⟩ = true :=
   finalLimits_end_stays_inside true ⟨10, 50⟩ ⟨10, 5⟩ [⟨7, 2, 13, 8⟩, ⟨20, 0, 30, 10⟩] ⟨7, 2, 13, 8⟩
     (by decide +kernel) (by decide +kernel) 12 (by decide +kernel) (by decide +kernel)
 
+-- non-vacuity of finalLimits_start_stays_inside: the same segment declared the other way round, x = 8
+example : insideBounds (P.setCo ⟨10, 5⟩ true 8) ⟨7, 2, 13, 8⟩ = true :=
+  finalLimits_start_stays_inside true ⟨10, 5⟩ ⟨10, 50⟩ [⟨7, 2, 13, 8⟩, ⟨20, 0, 30, 10⟩] ⟨7, 2, 13, 8⟩
+    (by decide +kernel) (by decide +kernel) 8 (by decide +kernel) (by decide +kernel)
+
+-- non-vacuity of finalLimits_free: neither end of (10,50)-(10,40) lies in a shape
+example : P.co (⟨10, 50⟩ : P) true - freeConnBuffer ≤ (finalLimits true ⟨10, 50⟩ ⟨10, 40⟩ [⟨7, 2, 13, 8⟩, ⟨20, 0, 30, 10⟩]).lo ∧
+    (finalLimits true ⟨10, 50⟩ ⟨10, 40⟩ [⟨7, 2, 13, 8⟩, ⟨20, 0, 30, 10⟩]).hi ≤ P.co (⟨10, 50⟩ : P) true + freeConnBuffer :=
+  finalLimits_free true ⟨10, 50⟩ ⟨10, 40⟩ [⟨7, 2, 13, 8⟩, ⟨20, 0, 30, 10⟩] (by decide +kernel)
+
 end AdaptaVerif.Props.C14Limits
